@@ -4,12 +4,13 @@
   computes: on an object that needs no decompression (`insert_rr_plain`) and through decompression (`insert_rr_compressed`).
 
   The source moves bytes with `Vec::resize`, `copy_within` and `copy_from_slice` (TrSupport.lean gives each its meaning, with
-  its panics); `splice_eq` shows that the three together are the model's `take io ++ rr ++ drop io`.  `Compress::uncompress` and
-  `ParsedPacket::recompute` are *not* translated: the translated code calls the model's (`TrRecompute.lean`), which stay tied by
-  correspondence.  Hypothesis `OffOK`: the section starts lie inside the packet — with a start beyond the end the source appends
+  its panics); `splice_eq` shows that the three together are the model's `take io ++ rr ++ drop io`.  `ParsedPacket::recompute` is translated too (it
+  calls the translated `DNSSector::new` and `parse`: `recompute_eq`); `Compress::uncompress` is *not*: the translated code calls the
+  model's `uncompress`, which stays tied by correspondence.  Hypothesis `OffOK`: the section starts lie inside the packet — with a start beyond the end the source appends
   where the model panics; no consistent object is in that state.
 -/
 import DnsModel.Tie.Counts
+import DnsModel.Tie.Parse
 namespace Dns.Tie
 open Dns
 
@@ -114,7 +115,7 @@ theorem snd_diverge {α β} {x : Res (α × β)} (h : (x >>= fun r => Res.ok r.2
 /-- **insert_rr on an object that needs no decompression** (the path every insertion takes after the first mutation) -/
 theorem insert_rr_plain (pp : PP) (s : Section) (rr : Bytes) (hmc : pp.maybeCompressed = false) (hoff : OffOK pp) :
     Tr.Counts.insert_rr pp.packet pp.offsetQuestion pp.offsetAnswers pp.offsetNameservers pp.offsetAdditional pp.offsetEdns
-        pp.ednsCount pp.extRcode pp.ednsVersion pp.extFlags pp.maybeCompressed pp.maxPayload pp.cached s rr
+        pp.ednsCount pp.extRcode pp.ednsVersion pp.extFlags pp.maybeCompressed pp.cached s rr
       = (insertRR pp s rr >>= insFinish) := by
   unfold Tr.Counts.insert_rr insertRR
   simp only [hmc, Bool.false_eq_true, if_false, Res.pure_eq, Res.bind_ok, Option.isSome_none]
@@ -193,17 +194,42 @@ theorem insert_rr_plain (pp : PP) (s : Section) (rr : Bytes) (hmc : pp.maybeComp
 
 /-! the path through decompression: `uncompress`, `recompute`, then the plain path on the re-encoded object -/
 
-theorem recomputeFields_eq (q : PP) :
-    Tr.recomputeFields q.packet q.offsetQuestion q.offsetAnswers q.offsetNameservers q.offsetAdditional q.offsetEdns q.ednsCount
-        q.extRcode q.ednsVersion q.extFlags q.maybeCompressed q.maxPayload q.cached
+/-- `ParsedPacket::recompute` of the current source (it calls the translated `DNSSector::new` and `parse`) is the model's -/
+theorem recompute_eq (q : PP) :
+    Tr.Counts.recompute q.packet q.offsetQuestion q.offsetAnswers q.offsetNameservers q.offsetAdditional q.offsetEdns
+        q.ednsCount q.extRcode q.ednsVersion q.extFlags q.maybeCompressed q.cached
       = (q.recompute >>= fun r => match r.2 with | some e => Res.err e | none => Res.ok (ppTup r.1)) := by
-  obtain ⟨a1, a2, a3, a4, a5, a6, a7, a8, a9, a10, a11, a12, a13⟩ := q
-  unfold Tr.recomputeFields
-  simp only []
-  cases PP.recompute ⟨a1, a2, a3, a4, a5, a6, a7, a8, a9, a10, a11, a12, a13⟩ <;> simp [ppTup]
-  rename_i r
-  obtain ⟨r1, r2⟩ := r
-  cases r2 <;> rfl
+  unfold Tr.Counts.recompute PP.recompute
+  cases hmc : q.maybeCompressed
+  · simp [ppTup, hmc]
+  · simp only [Bool.not_true, Bool.false_eq_true, if_false]
+    cases hu : uncompress q.packet with
+    | ok u =>
+      have hn : Tr.Sector.new u = .ok (u, 0, none, none, 0, none, none, none, 512) := by
+        simpa [tup, Sector.new] using new_eq u
+      simp only [Res.bind_ok, hn, parse_eq]
+      cases hp : parse u with
+      | ok v =>
+        simp only [Res.bind_ok, viewTup, assert, Tr.unwrapOpt]
+        by_cases h1 : q.ednsCount = v.ednsCount
+        · by_cases h2 : q.extRcode = v.extRcode
+          · by_cases h3 : q.ednsVersion = v.ednsVersion
+            · by_cases h4 : q.extFlags = v.extFlags
+              · simp [h1, h2, h3, h4, ppTup]
+              · have h4' : ¬ v.extFlags = q.extFlags := fun h => h4 h.symm
+                simp [h1, h2, h3, h4, h4']
+            · have h3' : ¬ v.ednsVersion = q.ednsVersion := fun h => h3 h.symm
+              simp [h1, h2, h3, h3']
+          · have h2' : ¬ v.extRcode = q.extRcode := fun h => h2 h.symm
+            simp [h1, h2, h2']
+        · have h1' : ¬ v.ednsCount = q.ednsCount := fun h => h1 h.symm
+          simp [h1, h1']
+      | err e => simp
+      | panic => simp
+      | diverge => simp
+    | err e => simp
+    | panic => simp
+    | diverge => simp
 
 theorem recompute_ok {q q' : PP} (hmc : q.maybeCompressed = true) (h : q.recompute = .ok (q', none)) :
     q'.maybeCompressed = false ∧ q'.ednsCount = q.ednsCount ∧ q'.extRcode = q.extRcode ∧ q'.ednsVersion = q.ednsVersion ∧
@@ -220,14 +246,14 @@ theorem recompute_ok {q q' : PP} (hmc : q.maybeCompressed = true) (h : q.recompu
 theorem insert_rr_compressed (pp : PP) (s : Section) (rr : Bytes) (hmc : pp.maybeCompressed = true)
     (hoff : ∀ u q, uncompress pp.packet = .ok u → ({ pp with packet := u } : PP).recompute = .ok (q, none) → OffOK q) :
     Tr.Counts.insert_rr pp.packet pp.offsetQuestion pp.offsetAnswers pp.offsetNameservers pp.offsetAdditional pp.offsetEdns
-        pp.ednsCount pp.extRcode pp.ednsVersion pp.extFlags pp.maybeCompressed pp.maxPayload pp.cached s rr
+        pp.ednsCount pp.extRcode pp.ednsVersion pp.extFlags pp.maybeCompressed pp.cached s rr
       = (insertRR pp s rr >>= insFinish) := by
   unfold Tr.Counts.insert_rr insertRR
   simp only [hmc, if_true]
   cases hu : uncompress pp.packet with
   | ok u =>
     simp only [Res.bind_ok]
-    have hrf := recomputeFields_eq ({ pp with packet := u } : PP)
+    have hrf := recompute_eq ({ pp with packet := u } : PP)
     cases hr0 : ({ pp with packet := u } : PP).recompute with
     | ok r =>
       obtain ⟨q, e⟩ := r
